@@ -3693,6 +3693,14 @@ static ASTNode *clone_ast_node(const ASTNode *node) {
         case AST_ASSERT:
             cloned->as.assert.condition = clone_ast_node(node->as.assert.condition);
             break;
+        case AST_FIELD_ACCESS:
+            cloned->as.field_access.object = clone_ast_node(node->as.field_access.object);
+            cloned->as.field_access.field_name = node->as.field_access.field_name ? strdup(node->as.field_access.field_name) : NULL;
+            break;
+        case AST_TUPLE_INDEX:
+            cloned->as.tuple_index.tuple = clone_ast_node(node->as.tuple_index.tuple);
+            cloned->as.tuple_index.index = node->as.tuple_index.index;
+            break;
         /* Add more cases as needed */
         default:
             /* For unhandled types, just copy the node structure */
@@ -3701,6 +3709,34 @@ static ASTNode *clone_ast_node(const ASTNode *node) {
     }
 
     return cloned;
+}
+
+/* True if clone_ast_node copies every node of this expression. */
+static bool clone_supports(const ASTNode *node) {
+    if (!node) return true;
+    switch (node->type) {
+        case AST_NUMBER: case AST_FLOAT: case AST_STRING: case AST_BOOL: case AST_IDENTIFIER:
+            return true;
+        case AST_PREFIX_OP:
+            for (int i = 0; i < node->as.prefix_op.arg_count; i++) {
+                if (!clone_supports(node->as.prefix_op.args[i])) return false;
+            }
+            return true;
+        case AST_CALL:
+            if (!clone_supports(node->as.call.func_expr)) return false;
+            for (int i = 0; i < node->as.call.arg_count; i++) {
+                if (!clone_supports(node->as.call.args[i])) return false;
+            }
+            return true;
+        case AST_ASSERT:
+            return clone_supports(node->as.assert.condition);
+        case AST_FIELD_ACCESS:
+            return clone_supports(node->as.field_access.object);
+        case AST_TUPLE_INDEX:
+            return clone_supports(node->as.tuple_index.tuple);
+        default:
+            return false;
+    }
 }
 
 /* Helper to substitute an identifier in an AST (replaces old_name with new_name) */
@@ -3732,6 +3768,12 @@ static void substitute_identifier(ASTNode *node, const char *old_name, const cha
         case AST_ASSERT:
             substitute_identifier(node->as.assert.condition, old_name, new_name);
             break;
+        case AST_FIELD_ACCESS:
+            substitute_identifier(node->as.field_access.object, old_name, new_name);
+            break;
+        case AST_TUPLE_INDEX:
+            substitute_identifier(node->as.tuple_index.tuple, old_name, new_name);
+            break;
         /* Add more cases as needed */
         default:
             break;
@@ -3761,6 +3803,12 @@ static void update_ast_location(ASTNode *node, int line, int column) {
             break;
         case AST_ASSERT:
             update_ast_location(node->as.assert.condition, line, column);
+            break;
+        case AST_FIELD_ACCESS:
+            update_ast_location(node->as.field_access.object, line, column);
+            break;
+        case AST_TUPLE_INDEX:
+            update_ast_location(node->as.tuple_index.tuple, line, column);
             break;
         case AST_IDENTIFIER:
         case AST_NUMBER:
@@ -4035,6 +4083,21 @@ static ASTNode *parse_function(Stage1Parser *p, bool is_extern, bool is_pub) {
 
         ASTNode *condition = parse_expression(p);
         if (!condition) {
+            free(name);
+            free(params);
+            if (return_struct_name) free(return_struct_name);
+            free_precondition_asserts(preconditions, precondition_count);
+            free_precondition_asserts(postconditions, postcondition_count);
+            return NULL;
+        }
+
+        if (!clone_supports(condition)) {
+            /* The postcondition is copied to every return statement; a partial
+             * copy (struct/array literals, if/cond/match expressions) would hand
+             * the type checker nodes without operands. */
+            parser_error(p, ens_tok->line, ens_tok->column, "Error at line %d, column %d: 'ensures' supports only literals, names, calls, operators, field access and tuple index\n",
+                    ens_tok->line, ens_tok->column);
+            free_ast(condition);
             free(name);
             free(params);
             if (return_struct_name) free(return_struct_name);
